@@ -380,8 +380,13 @@ func runCheck(id, tier string, workers int, only string, noReplay, verbose bool)
 	}
 	loadTime := time.Since(t0)
 	var sums []*harnessSummary
-	totalBudget := 0
-	if sc.TimeBudgetS != nil {
+	// a safety net: exploration of one harness stops (and the check reports
+	// itself incomplete) rather than running for ever on a tree that makes it explode
+	totalBudget := 900
+	if tier == "thorough" {
+		totalBudget = 5400
+	}
+	if sc.TimeBudgetS != nil && sc.TimeBudgetS[tier] > 0 {
 		totalBudget = sc.TimeBudgetS[tier]
 	}
 	for _, hs := range sc.Harnesses {
